@@ -64,6 +64,7 @@ structure CaseData where
   tb : String := ""
   vectors : Array String := #[]
   xlines : Array String := #[]
+  iolines : Array String := #[]      -- `stim` / `obs` lines: what the harness itself applied and observed
   skipped : Bool := false
 
 structure Stats where
@@ -276,6 +277,122 @@ def compareExporterModel (design : DesignFile) (xs : List XProc) (st : Stats) : 
             st := st.bump (if ok then "k:comb_process_equal" else "k:comb_process_differs")
   return (st, firstBad)
 
+/-! what the harness applied / observed versus what the recorder wrote -/
+
+def fsOfRational (s : String) : Nat :=
+  match s.splitOn "/" with
+  | [a, b] => match a.toNat?, b.toNat? with
+    | some x, some y => if y == 0 then 0 else x * 1000000000000000 / y
+    | _, _ => 0
+  | _ => 0
+
+def headerKV (hd key : String) : Option String :=
+  ((hd.splitOn " ").find? (·.startsWith (key ++ "="))).map fun t => (t.drop (key.length + 1)).toString
+
+/-- half period in fs of the requested frequency `a/b` Hz (truncated like `hlim::formatTime`) -/
+def requestedHalfFs (hd : String) : Option Nat :=
+  match (headerKV hd "freq").map (·.splitOn "/") with
+  | some [a, b] => match a.toNat?, b.toNat? with
+    | some x, some y => if x == 0 then none else some (y * 1000000000000000 / (2 * x))
+    | _, _ => none
+  | _ => none
+
+def absDiff (a b : Nat) : Nat := if a ≥ b then a - b else b - a
+
+/-- CHECK / SET items of the vector file with the time (fs) at which the test bench executes them; SETs grouped per instant -/
+def fileEvents (items : List (Nat × VecItem)) : List (Nat × Nat × String × String) × List (Nat × Nat × List (String × String)) := Id.run do
+  let mut now := 0
+  let mut checks : Array (Nat × Nat × String × String) := #[]          -- line, time, signal, value
+  let mut groups : Array (Nat × Nat × List (String × String)) := #[]   -- line, time, sets
+  let mut cur : List (String × String) := []
+  let mut curLine := 0
+  for (ln, it) in items do
+    match it with
+    | .adv ps =>
+      if !cur.isEmpty then groups := groups.push (curLine, now, cur)
+      cur := []
+      now := now + ps * 1000
+    | .set s v => if cur.isEmpty then curLine := ln
+                  cur := cur ++ [(s.toLower, v.trimAscii.toString)]
+    | .check s v => checks := checks.push (ln, now, s.toLower, v.trimAscii.toString)
+    | .rst _ _ => pure ()
+  if !cur.isEmpty then groups := groups.push (curLine, now, cur)
+  return (checks.toList, groups.toList)
+
+def sortPairs (l : List (String × String)) : List (String × String) := (l.toArray.qsort (fun a b => a.1 < b.1)).toList
+
+/-- the recorded stream must say exactly what the harness applied and observed: every observation with a defined bit is one CHECK
+(same pin, '-' exactly at the undefined bits, within half a clock period of the read), every changed stimulus value is one SET
+(undefined bits as 'X', released pins as 'Z').  Returns a description of the first difference. -/
+def compareRecordedStream (hd : String) (io : Array String) (items : List (Nat × VecItem)) : Option String := Id.run do
+  let some half := requestedHalfFs hd | return some "case header without freq="
+  let window := half + 2000
+  let (checks, groups) := fileEvents items
+  -- observations
+  let mut expChecks : Array (Nat × List String × String) := #[]     -- time, names, pattern
+  let mut stim : Array (Nat × Nat × String × String) := #[]         -- cycle, time, pin, value
+  for l in io do
+    match l.splitOn " " with
+    | ["obs", _, t, names, v] =>
+      if v.any (fun c => c == '0' || c == '1') then
+        expChecks := expChecks.push (fsOfRational t, (names.splitOn "|").map String.toLower, String.ofList (v.toList.map fun c => if c == 'x' then '-' else c))
+    | ["stim", cy, t, pin, v] => stim := stim.push (cy.toNat!, fsOfRational t, pin.toLower, v)
+    | _ => pure ()
+  if expChecks.size != checks.length then
+    return some s!"the reference run observed {expChecks.size} values with defined bits, the vector file has {checks.length} CHECKs"
+  for ((t, names, pat), (ln, tw, sig, v)) in expChecks.toList.zip checks do
+    if !names.contains sig then return some s!"vector line {ln}: CHECK of '{sig}', the harness read {names} there"
+    if pat != v then return some s!"vector line {ln}: CHECK {sig} {v}, but the reference simulator returned {pat} ('-' = undefined)"
+    if absDiff t tw > window then return some s!"vector line {ln}: CHECK {sig} is executed at {tw} fs, the value was read at {t} fs (more than half a clock period apart)"
+  -- stimuli: a SET is recorded when the applied value differs from the previous one (undefined and released bits are alike for the simulator state)
+  let mut last : HashMap String String := {}
+  let mut expGroups : Array (Nat × List (String × String)) := #[]
+  let mut curCycle := 0
+  let mut curTime := 0
+  let mut cur : List (String × String) := []
+  let mut first := true
+  for (cy, t, pin, v) in stim do
+    if !first && cy != curCycle then
+      if !cur.isEmpty then expGroups := expGroups.push (curTime, cur)
+      cur := []
+    first := false
+    curCycle := cy; curTime := t
+    let cmp := String.ofList (v.toList.map fun c => if c == 'z' then 'x' else c)
+    let prev := last.getD pin (String.ofList (List.replicate v.length 'x'))
+    if cmp != prev then
+      cur := (cur.filter (·.1 != pin)) ++ [(pin, String.ofList (v.toList.map fun c => if c == 'x' then 'X' else if c == 'z' then 'Z' else c))]
+    last := last.insert pin cmp
+  if !cur.isEmpty then expGroups := expGroups.push (curTime, cur)
+  if expGroups.size != groups.length then
+    return some s!"the harness applied {expGroups.size} batches of changed stimuli, the vector file has {groups.length} batches of SETs"
+  for ((t, sets), (ln, tw, fsets)) in expGroups.toList.zip groups do
+    if sortPairs sets != sortPairs fsets then return some s!"vector line {ln}: recorded SETs {sortPairs fsets}, applied stimuli {sortPairs sets}"
+    if absDiff t tw > window then return some s!"vector line {ln}: SETs executed at {tw} fs, applied at {t} fs (more than half a clock period apart)"
+  return none
+
+/-- the generated test bench must have the requested clock: half period = b/(2a) for a/b Hz, initial level high iff the root clock
+triggers on the rising edge (`ReferenceSimulator::powerOn`), reset initially at its active level and absent without a reset -/
+def compareTestbenchHeader (hd : String) (hdr : TbHeader) : Option String := Id.run do
+  let some half := requestedHalfFs hd | return some "case header without freq="
+  for (cn, h) in hdr.clocks do
+    if h != half then return some s!"clock '{cn}': the test bench waits {h} fs per half period, the requested frequency {(headerKV hd "freq").getD "?"} Hz needs {half} fs"
+    match hdr.sigInit.lookup cn, headerKV hd "trig" with
+    | some (.sl b), some trig =>
+      let expected := if trig == "0" then SL.I else SL.O
+      if b != expected then return some s!"clock '{cn}' starts at '{b.toChar}', trigger kind {trig} needs '{expected.toChar}'"
+    | _, _ => return some s!"clock '{cn}' has no initial value in the test bench"
+  match headerKV hd "reset" with
+  | some r =>
+    let kind := (r.take 1).toString
+    let high := r.endsWith "H"
+    match hdr.sigInit.lookup "reset" with
+    | some (.sl b) =>
+      if kind == "0" then return some "the test bench has a reset signal although no reset was requested"
+      if b != (if high then SL.I else SL.O) then return some s!"reset starts at '{b.toChar}' but the requested polarity is {r}"
+    | _ => pure ()
+  | none => pure ()
+  return none
+
 def runCase (c : CaseData) (st : Stats) : IO Stats := do
   let mut st := { st with cases := st.cases + 1 }
   let hd := c.header
@@ -311,6 +428,13 @@ def runCase (c : CaseData) (st : Stats) : IO Stats := do
   let items ← match parseVectors c.vectors.toList with
     | .ok i => pure i
     | .error e => return ← diff st "vectors" e
+  -- 1a. the recorded stream and the test-bench header against what the harness requested, applied and observed itself
+  match compareTestbenchHeader hd hdr with
+  | some msg => return ← pfail st "testbench_header" msg
+  | none => st := st.bump "k:testbench_header_as_requested"
+  match compareRecordedStream hd c.iolines items with
+  | some msg => return ← pfail st "recorded_stream" msg
+  | none => st := st.bump "k:recorded_stream_equals_harness_io"
   -- 1b. exporter model vs. emitted text (statement by statement, in emitted order)
   let (st', bad) := compareExporterModel design (parseXProcs c.xlines) st
   st := st'
@@ -350,10 +474,14 @@ def runCase (c : CaseData) (st : Stats) : IO Stats := do
       let exactFail := if (hd.splitOn "undef=0").length > 1 then r.fails.find? (fun x => x.sig.startsWith "x_rrd") else none
       let what := if exactFail.isSome then "check_mismatch_memory_read"
         else if r.fails.all (fun x => r.firstSetLine == 0 || x.line < r.firstSetLine) then "check_precedes_first_set"
-        else if r.fails.any (·.hard) then "check_mismatch_value"
+        else if r.fails.any (·.hard) then
+          -- defined on both sides and different: "through_metavalue" only if at EVERY such CHECK every differing element of the checked pin
+          -- is tainted (decided by a metavalue, `Kernel.taintExpr`); a single untainted difference keeps the plain class
+          (if (r.fails.filter (·.hard)).all (·.hardTainted) then "check_mismatch_value_through_metavalue" else "check_mismatch_value")
         else if r.fails.any (fun x => x.got.contains 'U') then "check_mismatch_uninitialised"
         else "check_mismatch_metavalue"
-      let f := if what == "check_mismatch_value" then (r.fails.find? (·.hard)).getD f else exactFail.getD f
+      let f := if what == "check_mismatch_value" then (r.fails.find? (fun x => x.hard && !x.hardTainted)).getD f
+               else if what == "check_mismatch_value_through_metavalue" then (r.fails.find? (·.hard)).getD f else exactFail.getD f
       return ← pfail st what s!"vector_line={f.line} signal={f.sig} time_fs={f.timeFs} failing_checks={r.fails.length} of {r.checks} vhdl_has_metavalue={if r.metaPresent then 1 else 0} expected={f.expected} got={f.got}"
 
 def stripPayload (l : String) : String := if l.startsWith "| " then (l.drop 2).toString else if l == "|" then "" else l
@@ -386,7 +514,8 @@ partial def loop (h : IO.FS.Stream) (st : Stats) (cur : Option CaseData) : IO St
     | none => loop h st none
   else
     match cur with
-    | some c => if l.startsWith "x" && !l.startsWith "xdesc" then loop h st (some { c with xlines := c.xlines.push l })
+    | some c => if l.startsWith "obs " || l.startsWith "stim " then loop h st (some { c with iolines := c.iolines.push l })
+                else if l.startsWith "x" && !l.startsWith "xdesc" then loop h st (some { c with xlines := c.xlines.push l })
                 else loop h st (some { c with recipe := c.recipe.push l })
     | none => loop h st none
 
